@@ -1,11 +1,61 @@
 """C04 - Fini/Suspend restore every terminal mode; Resume re-applies enabled ones; tty contract."""
 from checks import screenfam
+from lib import vlib
+
+# terminal variants of ModesModel and a built-in entry of each kind to replay its behaviours on
+VARIANTS = [
+    ("xterm-family", dict(HasMouse="TRUE", HasShapes="TRUE", HasCivis="TRUE", HasRmam="TRUE", HasTitle="TRUE"), "xterm-256color"),
+    ("console", dict(HasMouse="TRUE", HasShapes="TRUE", HasCivis="TRUE", HasRmam="TRUE", HasTitle="FALSE"), "linux"),
+    ("vt100", dict(HasMouse="FALSE", HasShapes="FALSE", HasCivis="FALSE", HasRmam="TRUE", HasTitle="FALSE"), "vt100"),
+    ("vt220", dict(HasMouse="FALSE", HasShapes="FALSE", HasCivis="TRUE", HasRmam="TRUE", HasTitle="FALSE"), "vt220"),
+    ("ansi", dict(HasMouse="FALSE", HasShapes="FALSE", HasCivis="FALSE", HasRmam="FALSE", HasTitle="FALSE"), "ansi"),
+]
+
+
+def model_and_replay(ctx, mops, gops, every):
+    """M: ModesModel (engage / disengage / mode calls over the terminal's mode registers) exhaustively for each terminal
+    variant, with and without the alternate screen; G: the history of every transition into Suspend / Resume / Fini and
+    every full-length behaviour replayed on a real screen of that variant, validated by TScreenTrace."""
+    nb_total = 0
+    for name, consts, term in VARIANTS:
+        for alt in ("TRUE", "FALSE"):
+            ctx.model("ModesModel", constants=dict(consts, MaxOps=mops, AltScreen=alt), timeout=1800)
+        g = ctx.tlc("ModesModel", workers=16, timeout=1800, constants=dict(consts, MaxOps=gops, GEN="TRUE"))
+        if not g["ok"]:
+            raise vlib.MachineryError("behaviour generation failed for variant " + name)
+        beh = ctx.work + "/modes_%s.ndjson" % name
+        nb = ctx.behaviours(g, beh)
+        if nb == 0:
+            raise vlib.MachineryError("ModesModel generated no behaviours")
+        tf = ctx.work + "/trace_modes_%s.ndjson" % name
+        s, _ = ctx.run_vh(["screen", "--behaviours", beh, "--behevery", every, "--terms", term, "--random", 0, "--seed", ctx.seed,
+                           "--nopad", "--out", tf], timeout=3000)
+        r = ctx.validate_parallel("TScreenTrace", tf, parts=12, expect_events=s.get("events"), timeout=3400)
+        mine = [d for d in r["devs"] if d["tag"].startswith("C04.")]
+        for d in mine:
+            d["variant"] = name
+        ctx.add_violations(mine, tf)
+        nb_total += s["histories"]
+    # the two defects of the code as it was found are refuted by the model (evidence that it discriminates)
+    for key, val in (("ShapeFromSent", "FALSE"), ("WriteWhenIdle", "TRUE")):
+        bad = ctx.tlc("ModesModel", workers=8, timeout=600, constants=dict(VARIANTS[0][1], MaxOps=6, **{key: val}))
+        ctx.cov["model_of_original_code_refuted_" + key] = "is violated" in bad["out"]
+        if "is violated" not in bad["out"]:
+            raise vlib.MachineryError("ModesModel no longer refutes %s=%s" % (key, val))
+    ctx.cov["behaviours_replayed"] = nb_total
 
 
 def run(ctx):
+    q = ctx.tier == "quick"
+    ctx.build_harness()
+    model_and_replay(ctx, 8 if q else 10, 4 if q else 5, 5 if q else 1)
     screenfam.run_screen(ctx, "C04", mix="modes", per_term=(4, 40))
-    ctx.assumptions += ["mode registers are those of spec/Term.tla; the hyperlink state at exit is not required to be closed"]
-    ctx.finish("exploration",
-               rule="seeded random histories mixing mode calls (mouse/paste/focus/cursor style/title), drawing, "
+    ctx.assumptions += ["mode registers are those of spec/Term.tla; the hyperlink state at exit is not required to be closed",
+                        "ModesModel abstracts drawing to 'a styled cell was painted' and the cursor to shown/hidden with a shape"]
+    ctx.finish("model_checking",
+               rule="M: ModesModel (transcribed engage/disengage/mode calls over the reference terminal's mode registers): "
+                    "RestoredOnLeave, ModesOnResume, OwnedWhileRunning for five terminal variants (xterm family, linux console, vt100, vt220, ansi) x alternate screen on/off; "
+                    "G: the history of every model transition into Suspend/Resume/Fini replayed on a real screen and validated; "
+                    "V: seeded random histories mixing mode calls (mouse/paste/focus/cursor style/title), drawing, "
                     "Suspend/Resume cycles, ending in Fini or Suspend, on every ECMA-48-family entry with TCELL_ALTSCREEN "
                     "set or not; distinct = distinct (terminal, operation sequence)")
